@@ -90,12 +90,15 @@ class Management:
         if address in self._connections:
             raise ManagementConnectionError(f"Connection to {address} already exists.")
         p2p_connection = P2PConnection(self.xknx, address, rate_limit)
+        # registered before connecting - a T_Disconnect refusing the connection
+        # may be received before `connect()` resumes
+        self._connections[address] = p2p_connection
         try:
             await p2p_connection.connect()
         except ManagementConnectionError as exc:
+            del self._connections[address]
             logger.error("Establishing connection to %s failed: %s", address, exc)
             raise
-        self._connections[address] = p2p_connection
 
         def remove_connection_hook() -> None:
             """Remove connection from management."""
@@ -246,6 +249,14 @@ class P2PConnection:
         except CommunicationError as exc:
             self._response_waiter.cancel()
             raise ManagementConnectionError("Error while sending Telegram") from exc
+        if (
+            self._response_waiter.done()
+            and self._response_waiter.exception() is not None
+        ):
+            # the peer refused the connection (T_Disconnect) while we were connecting
+            raise ManagementConnectionRefused(
+                "Management connection disconnected by the peer."
+            )
         self._connected = True
 
     async def disconnect(self) -> None:
